@@ -337,6 +337,22 @@ FilterGatesC(d, o) == ~IsSecure(d) => o.h \in {"none", "HTMLURLHandler"}
 ClimbIsNotFoundC(d, o) == (Hostile(d) /\ ~UrlShaped(d)) => o.resp = "notfound"
 \* no archive-internal relative path is handed to the operating system
 NoCwdRelativeC(o) == ~o.rel
+\* WORLD STATES WITH CACHE ARTEFACTS (harness gamma: planted in the root before the request, identical
+\* in both worlds).  The index cache of an archive b lives next to it under the selector
+\* dirname(b) + "/.cache.pygopherd.zip3." + basename(b); which files exist depends on the dbm flavour of
+\* the interpreter that wrote it (single file, .db, .pag + .dir, .dat + .dir + .bak), it may be fresher or
+\* older than the archive, valid or garbage; a directory may hold a .cache.pygopherd.dir left by another
+\* run.  ASSUMPTION CacheByFsPath (ZIP.py init_cache/save_cache, dir.py loadcache/savecache): whatever
+\* variant is probed, it is probed at FsPath(cache selector) - root-prefixed like every other path - never
+\* at the selector-style name itself (an absolute path outside the root) nor relative to the cwd.
+PreStates == {"none", "zsingle_fresh", "zsingle_stale", "zdb", "zpag", "zdumb_garbage", "zdumb_valid",
+              "dircache_garbage", "dircache_valid"}
+ZipCacheVariants == {<<>>, Q(".db"), Q(".pag"), Q(".dir"), Q(".dat"), Q(".bak")}
+ZipCacheSel(b) == LET i == LastChar(b, "/") IN SubSeq(b, 1, i) \o Q(".cache.pygopherd.zip3.") \o SubSeq(b, i + 1, Len(b))
+CachePathsC(d, hl) ==
+    LET zb == IF "ZIPHandler" \in Range(HandlerList(hl)) /\ IsSecure(d) THEN ZipBaseOf("real", ZipHeads(d)) ELSE <<>>
+    IN zb = <<>> \/ \A v \in ZipCacheVariants : Contained(FsPath(ZipCacheSel(zb)) \o v)
+
 \* NoTransformAfterFilter as a clause of the model, and the witness that it is needed
 LiteralPathC(d) == PostFilter(d) = d
 FoldWouldEscape(d) == IsSecure(d) /\ NormalFormC(d) /\ ~Contained(RootQ \o Fold(d))
@@ -347,7 +363,7 @@ FoldWouldEscape(d) == IsSecure(d) /\ NormalFormC(d) /\ ~Contained(RootQ \o Fold(
 TreeNames == {c[Len(c)] : c \in {c \in TreePaths : Len(c) > 0}}
 HandlerNames == {Q("gophermap"), Q("new"), Q("cur"), Q("tmp"), Q(".cache.pygopherd.dir"), Q(".cap"),
                  Q(".cache.pygopherd.zip3.z.zip")}
-DbmExts == {Q(".db"), Q(".dat"), Q(".dir"), Q(".bak")}
+DbmExts == {Q(".db"), Q(".dat"), Q(".dir"), Q(".bak"), Q(".pag")}
 TrustedNames == TreeNames \cup HandlerNames
 IsTrustedComp(c) ==
     \/ c = <<>> \/ c \in TrustedNames
